@@ -27,6 +27,8 @@ type genReq struct {
 	Chunks  []int
 	// SlowBody: the client sends the body 300 ms after the header block
 	SlowBody bool
+	// Expect: the request carries Expect: 100-continue
+	Expect bool
 }
 
 func (g *genReq) wire() []byte {
@@ -180,6 +182,12 @@ func genRequest(t *sim.Tape, thorough bool, idx int) *genReq {
 				g.Body = []byte(fb.String())
 			}
 		}
+		// curl and others announce larger uploads with Expect: 100-continue (and send
+		// the body anyway when no interim answer comes)
+		if n > 0 && t.Rare(1, 6, "expect") {
+			g.Fields = append(g.Fields, hfield{"Expect", "100-continue"})
+			g.Expect = true
+		}
 		if n > 0 && t.Rare(1, 2, "chunked") {
 			g.Chunked = true
 			g.SlowBody = t.Rare(1, 6, "slowbody")
@@ -309,10 +317,18 @@ func worldC02(w *World) {
 					}
 				}
 			}()
-			resp, err := http.ReadResponse(bufio.NewReader(c), &http.Request{Method: g.Method})
+			br := bufio.NewReader(c)
+			resp, err := http.ReadResponse(br, &http.Request{Method: g.Method})
+			for err == nil && resp.StatusCode == 100 {
+				// the interim answer to Expect: 100-continue
+				resp, err = http.ReadResponse(br, &http.Request{Method: g.Method})
+			}
 			if err != nil {
 				results[i] = "read: " + err.Error()
 				return
+			}
+			if g.Expect {
+				w.Probe("request_with_expect_continue")
 			}
 			io.Copy(io.Discard, resp.Body)
 			results[i] = fmt.Sprintf("%d", resp.StatusCode)
